@@ -144,3 +144,28 @@ func copyRates(m map[string]string) map[string]string {
 	}
 	return out
 }
+
+// moduleReplyTo: the output the harness's module service gave, in this step, to a consumer's call with that input
+// (ok=false if it was not asked). Its own record of what it answered — not the response the service module stored.
+func moduleReplyTo(r *StepRec, input string) (string, bool) {
+	for i := len(r.ModReplies) - 1; i >= 0; i-- {
+		if r.ModReplies[i].Input == input {
+			return r.ModReplies[i].Output, true
+		}
+	}
+	return "", false
+}
+
+// servedOutputKind classifies the answer a module-service call got: by the module's own record of its reply where
+// there is one, else by the stored response.
+func servedOutputKind(r *StepRec, rid string) string {
+	if r.Kind == "msg" && r.Msg != nil && r.Msg.T == "call" {
+		if out, ok := moduleReplyTo(r, r.Msg.Input); ok {
+			return outputKind(out)
+		}
+	}
+	if resp, ok := r.Post.Resp[rid]; ok {
+		return outputKind(resp.Output)
+	}
+	return "none"
+}
